@@ -54,6 +54,12 @@ def values_for(rid, opt):
     entries = domains().get(opt, [])
     chosen = None
     for e in entries:
+        if rid in e.get("rules", ()):
+            chosen = e
+            break
+    for e in entries if chosen is None else ():
+        if "rules" in e:
+            continue
         if any(_norm(default) == _norm(d) for d in e.get("applies_when_default_in", [])):
             chosen = e
             break
